@@ -50,7 +50,7 @@ func (p *Profile) creditString(n int64) string {
 	frac := fmt.Sprintf("%06d", r.Int64())
 	variant := 0
 	if p.Render == 1 {
-		variant = p.rng.Intn(4)
+		variant = p.rng.Intn(5)
 	}
 	switch variant {
 	case 1: // padded to the full precision
@@ -66,6 +66,9 @@ func (p *Profile) creditString(n int64) string {
 			s = "+" + s
 		}
 	}
+	if variant == 4 { // leading zero
+		s = "0" + s
+	}
 	if neg {
 		s = "-" + s
 	}
@@ -74,7 +77,11 @@ func (p *Profile) creditString(n int64) string {
 
 // tokenString renders n abstract units as an integer amount of basket tokens.
 func (p *Profile) tokenString(n int64) string {
-	return new(big.Int).Mul(big.NewInt(n), p.UnitMicro).String()
+	s := new(big.Int).Mul(big.NewInt(n), p.UnitMicro).String()
+	if p.Render == 1 && n > 0 && p.rng.Intn(4) == 0 {
+		s = "0" + s // a decimal integer with a leading zero
+	}
+	return s
 }
 
 // ---------------------------------------------------------------- abstract message access
@@ -104,6 +111,10 @@ func num(m M, k string) int64 {
 	case int64:
 		return x
 	case int:
+		return int64(x)
+	case uint64:
+		return int64(x)
+	case uint32:
 		return int64(x)
 	case *Amt:
 		panic("amount already concretised: " + k)
@@ -167,8 +178,16 @@ func (p *Profile) credit(m M, k string) string {
 }
 
 func (p *Profile) token(m M, k string) string {
-	s := p.tokenString(num(m, k))
-	i, _ := sdk.NewIntFromString(s)
+	s, ok := m[k+"_tokens_raw"].(string) // the driver supplies the exact string
+	if !ok {
+		s = p.tokenString(num(m, k))
+	}
+	// the amount of tokens the string denotes for the chain: MsgTake.Amount is an sdk.Int string
+	// (base prefixes are honoured: "010" is 8)
+	i, ok := sdk.NewIntFromString(s)
+	if !ok {
+		i = sdk.ZeroInt()
+	}
 	m[k] = TokenAmt(i)
 	return s
 }
